@@ -1515,3 +1515,15 @@ Proof.
     unfold Translated.set_Frame_Length, Translated.set_Frame_ID, Translated.set_Frame_IsExtended, Translated.set_Frame_Data. ft_proj.
     rewrite Hq, ft_copy_data. reflexivity.
 Qed.
+
+(* @group render requires can descriptor physical lookup *)
+(** ** the renderings: pkg/canjson/encode.go and pkg/cantext/encode.go (models: Gen/Render.v, Gen/RenderNum.v,
+       bytes of a segment list: Gen/RenderSpec.v [render]) *)
+From CanVerif Require Import Translate.GoSemText Gen.RenderNum Gen.Render Gen.RenderSpec.
+
+Lemma T_uintToJSON_eq u : Translated.uintToJSON u = uint_to_json u.
+Proof. reflexivity. Qed.
+Lemma T_intToJSON_eq i : Translated.intToJSON i = int_to_json i.
+Proof. reflexivity. Qed.
+Lemma T_floatToJSON_eq rF f : Translated.floatToJSON rF f = render_segment rF rF (fun b => b) rF (FloatF (bits_of_f64 f)).
+Proof. reflexivity. Qed.
